@@ -1,11 +1,12 @@
-import MesaModel.Proofs.AgentSet
+import MesaModel.Proofs.AgentSetHist
 /-!
 # C18 (agents group) — a rejected AgentSet call leaves the store unchanged
 
 Material for C18 ("a mutating call that raises leaves all observable state unchanged") from the `agents`
 group.  None of these calls is in C18's own list of rejecting calls (they are not space / table / scheduling
 / subscription operations); they are the raising calls of `AgentSet`: `remove` of a non-member (`KeyError`),
-`sort` / `groupby` by a key some member lacks (`AttributeError`), plus the non-mutating raising queries.
+`sort` / `groupby` by a key some member lacks (`AttributeError`), `pop` on an empty set (`KeyError`), plus the
+non-mutating raising queries.
 In the model a raising call returns `Except.error` and carries no new store at all, so "unchanged" is stated
 through `applyOp`, the state a history continues from; harness/c03.py `generate_rejecting` exercises the same
 calls on the implementation, followed by further valid operations, and its oracle clause `reject:` compares
@@ -31,6 +32,11 @@ theorem C18_agents_groupby_missing_key_reject_unchanged (st : Store) (s : Nat) (
     group st s key asSets = .error .attr ∧ applyOp st (.group s key asSets) = st := by
   simp [group, applyOp, h]
 
+/-- `AgentSet.pop()` on an empty set raises `KeyError` and changes nothing. -/
+theorem C18_agents_pop_empty_reject_unchanged (st : Store) (s : Nat) (h : st.get s = []) :
+    (pop st s).toOption = none ∧ applyOp st (.pop s) = st := by
+  simp [pop, applyOp, h, popL, Except.toOption]
+
 /-- Every raising call of the model returns an error *instead of* a store: whatever follows in a history
     starts from the store as it was (`applyOp` of a raising operation is the identity). -/
 theorem C18_agents_any_reject_unchanged (st : Store) (op : SOp) :
@@ -38,6 +44,7 @@ theorem C18_agents_any_reject_unchanged (st : Store) (op : SOp) :
      | .sort s key asc i => (sort st s key asc i).toOption.isNone
      | .group s key b => (group st s key b).toOption.isNone
      | .remove s a => (remove st s a).toOption.isNone
+     | .pop s => (pop st s).toOption.isNone
      | _ => false) = true → applyOp st op = st := by
   cases op with
   | sort s key asc i =>
@@ -53,6 +60,11 @@ theorem C18_agents_any_reject_unchanged (st : Store) (op : SOp) :
   | remove s a =>
     intro h; simp only [applyOp]
     cases hs : remove st s a with
+    | error e => rfl
+    | ok r => simp [hs, Except.toOption] at h
+  | pop s =>
+    intro h; simp only [applyOp]
+    cases hs : pop st s with
     | error e => rfl
     | ok r => simp [hs, Except.toOption] at h
   | _ => intro h; simp at h
